@@ -8,3 +8,12 @@ pub use adam::AdamOptions;
 pub(crate) use adapt::Strategy;
 pub use adapt::{StepSizeAdaptMethod, StepSizeAdaptOptions, StepSizeSettings};
 pub(crate) use dual_avg::AcceptanceRateCollector;
+
+#[cfg(nuts_rs_verif)]
+pub use adam::Adam as VerifAdam;
+#[cfg(nuts_rs_verif)]
+pub use adapt::Strategy as VerifStrategy;
+#[cfg(nuts_rs_verif)]
+pub use dual_avg::{
+    AcceptanceRateCollector as VerifAcceptanceRateCollector, DualAverage as VerifDualAverage,
+};
